@@ -13,23 +13,28 @@ PROP = "C15"
 TITLE = "ODE solvers return the solution of the stated problem under any transformation"
 REQUIRED_HOOKS = ["ode.solve_ode_ivp", "ode.solve_ode_bvp", "returned-callable:transform", "returned-callable:direct"]
 REQUIRED_FAMILIES = ["ivp-o1", "ivp-o2", "ivp-o3", "bvp-o1", "bvp-o2", "bvp-o3", "ivp-pyfloat-span"]
-BUDGET = {"quick": 400, "thorough": 3000}
+BUDGET = {"quick": 900, "thorough": 9000}
 MAX_DISCARD_FRACTION = 0.05
 RULE = (
-    "One case = one manufactured linear ODE (order 1-3; y = sin + exp + cubic with analytic derivatives, coefficient functions "
-    "alpha+beta*s(x) or constants, leading coefficient >= 0.5, f := sum a_k y^(k); drawn from the case rng) posed as IVP (exact "
-    "derivatives at x0, forward or backward) or as a well-posed BVP, solved by the real solve_ode_ivp / solve_ode_bvp once directly "
-    "and once through ONE coordinate transform; deterministic cross product kind x order x IVP method (RK45, DOP853, Radau, LSODA) x "
-    "tol (1e-4, 1e-6, 1e-8) x 29 transform configurations (Becke, Knowles k, Handy m, HandyMod m, LinearFinite, MultiExp on "
-    "[-0.9,0.9]; Identity, InverseRTransform of 9 maps, LinearInfinite, Exp, Power, Hyperbolic on [0.1,6]; k,m in 1,2,3,2.5), "
-    "thorough repeats it with 12 independent random problems each. Decided per case: error of y, y', y'' (w.r.t. the original "
-    "variable) against the exact solution at 24 points for both solves, prescribed conditions, transformed == direct, shape and "
-    "no_derivatives. A case is non-trivial when both solves converged and were compared; non-convergence is a discard."
+    "One case = one manufactured linear ODE (order 1-3; y = sin + exp + cubic with analytic derivatives validated against SymPy, "
+    "coefficient functions alpha+beta*s(x) (s = sin, Lorentzian, tanh) or constants passed as callables / numbers / ndarray / list, "
+    "leading coefficient >= 0.5, non-zero lower-order coefficients, f := sum a_k y^(k); all numbers drawn from the case rng) posed as "
+    "IVP (exact derivatives at x0; forward, 25 % backward; NumPy- or Python-float interval ends) or as a well-posed BVP (order 1: one "
+    "end; order 2: a0<0<a2 with Dirichlet or mixed Dirichlet/Neumann ends; order 3: y,y' at one end and y at the other on an interval "
+    "<= 1 with small lower-order coefficients; derivative values converted to the transformed variable as documented), solved by the "
+    "real solve_ode_ivp / solve_ode_bvp once directly and once through ONE coordinate transform. Deterministic cross product "
+    "kind x order x IVP method (RK45, DOP853, Radau, BDF, LSODA) x tol (1e-4, 1e-6, 1e-8) x 29 transform configurations (Becke, Knowles k, "
+    "Handy m, HandyMod m, LinearFinite, MultiExp on sub-intervals of [-0.9,0.9]; Identity, InverseRTransform of 9 maps, LinearInfinite, "
+    "Exp, Power, Hyperbolic on sub-intervals of [0.1,6]; k,m in 1,2,3,2.5; decreasing maps IVP only), plus a Python-float-interval family "
+    "over all 29 transforms; quick = 3, thorough = 40 independent random problems per cell. Decided per case: error of y, y', y'' (w.r.t. "
+    "the original variable) against the exact solution at 24 points (both ends + 22 random) for both solves, prescribed conditions, "
+    "transformed == direct, output shape incl. no_derivatives, no exception. A case is non-trivial when a solve converged and was "
+    "compared; 'did not converge' is a discard."
 )
 ASSUMPTIONS = [
-    "admissible = order <= 3, leading coefficient bounded away from 0, interval strictly inside the transform's domain, increasing map for BVP (solve_bvp needs an increasing mesh), HyperbolicRTransform with b*(number of points-1) < 1",
-    "solver tolerance: rtol = atol = tol for IVP, tol for BVP; accuracy is judged at 100 x tol x scale where scale is the magnitude of the controlled quantities (solution and derivatives in the variable the solver integrates, mapped to the original variable with derivatives of the map obtained numerically from its forward map only)",
-    "problems are non-stiff and well conditioned by construction (|a_k/a_K| <~ 3, interval length <= 2.5; BVP recipes of DESIGN C15)",
+    "admissible = order <= 3, leading coefficient >= 0.5, interval strictly inside the transform's domain, increasing map for BVP (solve_bvp needs an increasing mesh), HyperbolicRTransform with b*(number of points-1) < 1 for every array it sees, slope of the map varying by at most a factor 50 over the interval (beyond that SciPy's adaptive error estimates are unreliable next to the branch point of the transformed equation: DOP853 error 0.04 at tol 1e-6 was measured at slope ratio 1700 - a property of the integrator, not of grid)",
+    "solver tolerance: rtol = atol = tol for IVP, tol for BVP. accuracy clause: |error of y^(k)| <= F * tol * scale_k, scale_k = max_{s,t} sum_j |Phi(t,s)|_kj v_j(s): v(s) = local tolerance unit tol*(1+|Y^(j)|) of the variables the solver integrates, mapped to the original variable with the Faa di Bruno matrix of the map (g', g'' obtained numerically from the forward map only), Phi = propagator of the homogeneous equation (own tight SciPy integration in the original variable). F = 100 for BVP, 5000 for IVP (calibrated: largest ratio on the unchanged tree 0.6 / 60; an IVP solver controls the local error only); equivalence 2F; conditions 10",
+    "problems are non-stiff and well conditioned by construction (|a_k/a_K| <~ 2.6, interval length <= 2.5; BVP recipes of DESIGN C15)",
 ]
 LEVEL_TEXT = "Exploration: seeded manufactured problems with exact solutions over the full cross product of kinds, orders, methods, tolerances and transform configurations; held on the executions produced."
 TECHNIQUE = "runtime monitoring: reference-model monitor (method of manufactured solutions) on solve_ode_ivp / solve_ode_bvp and on the returned callable, plus differential monitor transformed-vs-direct"
@@ -37,8 +42,12 @@ TECHNIQUE = "runtime monitoring: reference-model monitor (method of manufactured
 TOLS = [1e-4, 1e-6, 1e-8]
 METHODS = ["RK45", "DOP853", "Radau", "BDF", "LSODA"]
 KM = [1, 2, 3, 2.5]
-ACC_FACTOR = 100.0  # |error| <= ACC_FACTOR * tol * scale
-EQ_FACTOR = 200.0
+# |error| <= factor * tol * scale.  DESIGN starts from 100; calibrated per BUILDING.md (>= 100 x the largest ratio seen on the
+# unchanged tree): BVP (collocation, global residual control) largest ratio seen < 1 -> 100; IVP largest ratio seen 60 (BDF / LSODA /
+# RK45 at tol 1e-8: an adaptive IVP solver bounds the LOCAL error by tol, the global one grows with the number of steps) -> 5000.
+# Seeded breaks give ratios 1e5..1e9 at tol <= 1e-6.
+ACC_FACTOR = {"ivp": 5000.0, "bvp": 100.0}
+EQ_FACTOR = {"ivp": 10000.0, "bvp": 200.0}
 NPTS = 24
 RHO_MAX = 50.0  # admissible variation max|g'|/min|g'| of the map over the interval
 
@@ -56,11 +65,11 @@ TRANSFORMS = (
 DECREASING = {"MultiExp", "Inverse(MultiExp)"}  # decreasing maps: decreasing mesh, rejected by scipy's solve_bvp (documented exclusion)
 
 
-PYFLOAT_NEEDS_SIZE = ("LinearInfinite", "Hyperbolic")  # their deriv() uses x.size: regular cases hand them NumPy floats
+PYFLOAT_NEEDS_SIZE = ("LinearInfinite", "Hyperbolic")  # their deriv() uses x.size (witnesses of the defect fixed in 1e13ca4)
 
 
 def cases(tier, seed):
-    reps = 3 if tier == "quick" else 60
+    reps = 3 if tier == "quick" else 40
     out = []
     for rep in range(reps):
         for order in (1, 2, 3):
@@ -69,7 +78,7 @@ def cases(tier, seed):
                     for method in METHODS:
                         cost = (1.0 + ti) * order * (2.0 if method in ("Radau", "BDF") else 1.0)
                         if rep == 0 and method in ("Radau", "BDF") and order == 2 and label == "Identity" and ti == 1:
-                            cost = 1e9  # pinned witness: implicit methods on order >= 2
+                            cost = 1e9  # witness of the defect fixed in 0b50a94 (implicit methods, order >= 2): run first
                         out.append((f"ivp-o{order}", {"method": method, "tol": tol, "tf": label, "rep": rep}, cost))
                     if label not in DECREASING:
                         out.append((f"bvp-o{order}", {"tol": tol, "tf": label, "rep": rep}, (1.0 + 2 * ti) * order * 2.0))
@@ -283,9 +292,9 @@ def run_case(ctx, family, params):
             i0 = 1 if backward else 0
             y0 = [float(v) for v in exact[:, i0]]
             y0_arg = y0 if rng.random() < 0.5 else np.array(y0)
-            # HyperbolicRTransform.deriv / LinearInfiniteRTransform.deriv need an object with .size: regular cases hand
-            # NumPy floats to them; the family ivp-pyfloat-span hands plain Python floats to every transform
-            np_span = (not pyfloat) and (label in PYFLOAT_NEEDS_SIZE or rng.random() < 0.5)
+            # interval ends as NumPy floats or plain Python floats (family ivp-pyfloat-span: always Python floats; the
+            # derivative methods of LinearInfinite / Hyperbolic use x.size, fixed in 1e13ca4)
+            np_span = (not pyfloat) and rng.random() < 0.5
             span = (np.float64(x0), np.float64(x1)) if np_span else (float(x0), float(x1))
             nod = bool(order >= 2 and rng.random() < 0.15)
             kw = {"method": method, "rtol": tol, "atol": tol}
@@ -334,19 +343,19 @@ def run_case(ctx, family, params):
     if yd is not _MISSING:
         for k in range(order):
             err = float(np.max(np.abs(yd[k] - exact[k])))
-            ctx.check("direct-solution-accuracy", f"{kind}:direct", err / (tol * scale_d[k]), ACC_FACTOR, sig=f"order{order}:d{k}", detail={"err": err, "scale": scale_d[k], **info, "problem": pr.describe()})
+            ctx.check(f"{kind}-direct-solution-accuracy", f"{kind}:direct", err / (tol * scale_d[k]), ACC_FACTOR[kind], sig=f"order{order}:d{k}", detail={"err": err, "scale": scale_d[k], **info, "problem": pr.describe()})
         for end, k, val in cond:
-            ctx.check("conditions-met", f"{kind}:direct", abs(yd[k, end] - val) / (tol * scale_d[k]), COND_FACTOR, sig=f"order{order}:d{k}", detail={"got": float(yd[k, end]), "want": val, "end": end, **info})
+            ctx.check(f"{kind}-conditions-met", f"{kind}:direct", abs(yd[k, end] - val) / (tol * scale_d[k]), COND_FACTOR, sig=f"order{order}:d{k}", detail={"got": float(yd[k, end]), "want": val, "end": end, **info})
     if yt is not _MISSING:
         for k in range(yt.shape[0]):
             err = float(np.max(np.abs(yt[k] - exact[k])))
-            ctx.check("transformed-solution-accuracy", subject, err / (tol * scale_t[k]), ACC_FACTOR, sig=f"order{order}:d{k}", detail={"err": err, "scale": scale_t[k], **info, "problem": pr.describe()})
+            ctx.check(f"{kind}-transformed-solution-accuracy", subject, err / (tol * scale_t[k]), ACC_FACTOR[kind], sig=f"order{order}:d{k}", detail={"err": err, "scale": scale_t[k], **info, "problem": pr.describe()})
             if yd is not _MISSING:
                 dif = float(np.max(np.abs(yt[k] - yd[k])))
-                ctx.check("transform-equivalence", subject, dif / (tol * scale_t[k]), EQ_FACTOR, sig=f"order{order}:d{k}", detail={"diff": dif, "scale": scale_t[k], **info})
+                ctx.check(f"{kind}-transform-equivalence", subject, dif / (tol * scale_t[k]), EQ_FACTOR[kind], sig=f"order{order}:d{k}", detail={"diff": dif, "scale": scale_t[k], **info})
         for end, k, val in cond:
             if k < yt.shape[0]:
-                ctx.check("conditions-met", subject, abs(yt[k, end] - val) / (tol * scale_t[k]), COND_FACTOR, sig=f"order{order}:d{k}", detail={"got": float(yt[k, end]), "want": val, "end": end, **info})
+                ctx.check(f"{kind}-conditions-met", subject, abs(yt[k, end] - val) / (tol * scale_t[k]), COND_FACTOR, sig=f"order{order}:d{k}", detail={"got": float(yt[k, end]), "want": val, "end": end, **info})
         ctx.check("callbacks-used", subject, pr.calls["fx"] > 0 and (pr.calls["coef"] > 0 or mode in ("array", "list") or pr.is_constant()))
 
 
